@@ -387,8 +387,11 @@ func runOpCrash(c *core.Ctx, ctx context.Context, f0 *fixture, oc opCase, k int,
 		c.Inconclusive("open for %s: %v", oc.name, err)
 		return
 	}
-	// warm caches as a long-running process would have them (without counting)
-	lk.Query(ctx, "from p")
+	// warm the journal caches as a long-running process would have them (without
+	// counting), but do not materialize commit snapshots: the interrupted
+	// operation may be the first to compute the tip's snapshot
+	lk.API.CommitObject(ctx, f0.p, "main")
+	lk.API.CommitObject(ctx, f0.q, "main")
 	cs.mu.Lock()
 	cs.calls, cs.at, cs.log = 0, k, nil
 	cs.mu.Unlock()
@@ -435,7 +438,7 @@ func partB(c *core.Ctx, ctx context.Context, kind string, only string, onlyK int
 	}
 	defer f0.store.Drop()
 	for _, oc := range opCases() {
-		if only != "" && oc.name != only {
+		if only != "" && !strings.Contains(","+only+",", ","+oc.name+",") {
 			continue
 		}
 		// dry run: count calls and get the post state
@@ -448,7 +451,8 @@ func partB(c *core.Ctx, ctx context.Context, kind string, only string, onlyK int
 		if err != nil {
 			return err
 		}
-		lk.Query(ctx, "from p")
+		lk.API.CommitObject(ctx, f0.p, "main")
+		lk.API.CommitObject(ctx, f0.q, "main")
 		cs.mu.Lock()
 		cs.calls, cs.log = 0, nil
 		cs.mu.Unlock()
@@ -622,7 +626,7 @@ func run(c *core.Ctx) error {
 		return err
 	}
 	// the repository's own file engine, every individual write call a crash point
-	fsOnly := "load"
+	fsOnly := "load,revert,query"
 	if !c.Quick() {
 		fsOnly = ""
 	}
